@@ -280,7 +280,12 @@ func c03Gen(t *rapid.T) c03Case {
 				if n <= len(u) {
 					u = "urn:x:" + strings.Repeat("y", n-6)
 				} else {
-					u += strings.Repeat("a", n-len(u))
+					// filler that stays as it is, or that URL re-serialisation escapes (1 byte -> 3, 2 bytes -> 6):
+					// the option must fit *as it is sent*, not as it is written
+					fill := rapid.SampledFrom([]string{"a", "a", " ", "\u00e4", "a b", "%20"}).Draw(t, "cpfill")
+					for len(u)+len(fill) <= n {
+						u += fill
+					}
 				}
 				ifi.CaptivePortal = &u
 			},
@@ -354,16 +359,23 @@ func c03Sweep(yield func(c03Case) bool) {
 			return
 		}
 	}
-	for n := 1; n <= 256; n++ {
-		u := "https://p.example/"
-		if n <= len(u) {
-			u = ("urn:x:" + strings.Repeat("y", 20))[:max(n, 1)]
-		} else {
-			u += strings.Repeat("a", n-len(u))
-		}
-		ifi := dIface{Name: &eth, Advertise: &tr, CaptivePortal: &u}
-		if !yield(c03Case{Doc: dDoc{Interfaces: []dIface{ifi}}, State: st}) {
-			return
+	for _, fill := range []string{"a", " ", "\u00e4"} {
+		for n := 1; n <= 256; n++ {
+			u := "https://p.example/"
+			if n <= len(u) {
+				if fill != "a" {
+					continue
+				}
+				u = ("urn:x:" + strings.Repeat("y", 20))[:max(n, 1)]
+			} else {
+				for len(u)+len(fill) <= n {
+					u += fill
+				}
+			}
+			ifi := dIface{Name: &eth, Advertise: &tr, CaptivePortal: &u}
+			if !yield(c03Case{Doc: dDoc{Interfaces: []dIface{ifi}}, State: st}) {
+				return
+			}
 		}
 	}
 	for _, names := range [][]string{{""}, {"a", ""}, {strings.Repeat("a", 63) + ".example"}, {"lan", "example.com", "a.b.c.d.e.f.g"}} {
